@@ -1,6 +1,178 @@
 import DdsModel.Drv.Util
+import DdsModel.QuantFmt
+/-! Driver section of C12: same case lines as harness/src/c12.rs, prints `ok <len> <fnv64>`. -/
+namespace Dds.Drv.C12
+open Dds.Quant
+
+def hexDigit (c : Char) : Option Nat :=
+  if '0' ≤ c ∧ c ≤ '9' then some (c.toNat - '0'.toNat)
+  else if 'a' ≤ c ∧ c ≤ 'f' then some (c.toNat - 'a'.toNat + 10)
+  else if 'A' ≤ c ∧ c ≤ 'F' then some (c.toNat - 'A'.toNat + 10)
+  else none
+def hex? (s : String) : Option Nat :=
+  if s.isEmpty then none else s.toList.foldlM (fun acc c => (hexDigit c).map (acc * 16 + ·)) 0
+
+def hexOf (n : Nat) (digits : Nat) : String :=
+  let ds := (List.range digits).reverse.map fun i =>
+    let d := n / 16 ^ i % 16
+    Char.ofNat (if d < 10 then '0'.toNat + d else 'a'.toNat + d - 10)
+  String.ofList ds
+
+def fnv (bytes : Array Nat) : UInt64 :=
+  bytes.foldl (fun h b => (h ^^^ (UInt64.ofNat b)) * 0x100000001b3) 0xcbf29ce484222325
+
+/-- `int_chan` of the harness -/
+def intChan (pat bits c k : Nat) : Nat :=
+  let r := 2 ^ bits
+  let mult := [1, 7, 0, 13].getD c 0
+  let add := [0, 3, 0, 5].getD c 0
+  let base (k : Nat) : Nat := if c = 2 then (r - 1) - k % r else (k * mult + add) % r
+  match pat with
+  | 0 => base k
+  | 1 => base (k / 2)
+  | 2 =>
+    match c with
+    | 0 => k % r
+    | 1 => k / r % r
+    | 2 => (k / 16 * 5 + 1) % r
+    | _ => (k * 13 + 5) % r
+  | _ => let t := base k; (2 * t + t / 2 ^ (bits - 1)) % r
+
+def pixIndex (pat : Nat) (bi : Bool) (w x y start : Nat) : Nat :=
+  if pat = 1 ∧ bi then start + 2 * ((y / 2) * (w / 2) + x / 2) else start + (y * w + x)
+
+def logicalPx (fam : String) (v : Array Inp) (one zero : Inp) : Array Inp :=
+  match fam with
+  | "g" => #[v[0]!, v[0]!, v[0]!, one]
+  | "a" => #[zero, zero, zero, v[3]!]
+  | "rgb" => #[v[0]!, v[1]!, v[2]!, one]
+  | _ => v
+
+structure Img where
+  w : Nat
+  h : Nat
+  px : Array Pix
+
+def Img.at (img : Img) (x y : Nat) : Pix := img.px[y * img.w + min x (img.w - 1)]!
+
+def isBi (f : Fmt) : Bool := match f.cls with | .bi _ => true | _ => false
+
+/-- encoded bytes with the loose pixels / blocks zeroed -/
+def encodeMasked (f : Fmt) (img : Img) (intLine : Bool) : Array Nat := Id.run do
+  let w := img.w; let h := img.h
+  let loose := img.px.map (fun p => pixelLoose f p intLine)
+  let lat (x y : Nat) : Bool := loose[y * w + min x (w - 1)]!
+  let mut out : Array Nat := Array.mkEmpty (w * h * f.unit)
+  match f.cls with
+  | .plain | .yuv _ =>
+    for i in [0:w * h] do
+      if loose[i]! then
+        for _ in [0:f.unit] do out := out.push 0
+      else
+        for b in encPixel f img.px[i]! do out := out.push b
+  | .rgbg | .subYuv _ =>
+    for y in [0:h] do
+      for bx in [0:(w + 1) / 2] do
+        let p0 := img.at (2 * bx) y; let p1 := img.at (2 * bx + 1) y
+        let l := lat (2 * bx) y || lat (2 * bx + 1) y || (f.cls = .rgbg && rgbgPairLoose p0 p1)
+        if l then
+          for _ in [0:f.unit] do out := out.push 0
+        else
+          for b in encPair f p0 p1 do out := out.push b
+  | .r1 =>
+    for y in [0:h] do
+      for bx in [0:(w + 7) / 8] do
+        if (List.range 8).any (fun j => lat (8 * bx + j) y) then out := out.push 0
+        else
+          let byte := (List.range 8).foldl (fun acc j => acc + q 1 ((img.at (8 * bx + j) y).x[0]!.clamp01) * 2 ^ (7 - j)) 0
+          out := out.push byte
+  | .bi m =>
+    -- plane 1
+    let blkLoose (bx y2 : Nat) : Bool :=
+      lat (2 * bx) (2 * y2) || lat (2 * bx + 1) (2 * y2) || lat (2 * bx) (2 * y2 + 1) || lat (2 * bx + 1) (2 * y2 + 1)
+    let sh := if m = 10 then 64 else 1
+    for y in [0:h] do
+      for x in [0:w] do
+        if blkLoose (x / 2) (y / 2) then
+          for _ in [0:f.unit] do out := out.push 0
+        else
+          let (yy, _, _) := yuvOf m (img.at x y)
+          if f.unit = 1 then out := out.push yy else for b in le16 (yy * sh) do out := out.push b
+    for by2 in [0:h / 2] do
+      for bx in [0:w / 2] do
+        if blkLoose bx by2 then
+          for _ in [0:2 * f.unit] do out := out.push 0
+        else
+          let ps := [img.at (2 * bx) (2 * by2), img.at (2 * bx + 1) (2 * by2), img.at (2 * bx) (2 * by2 + 1), img.at (2 * bx + 1) (2 * by2 + 1)]
+          let yuvs := ps.map (yuvOf m)
+          let u := (yuvs.foldl (fun a t => a + t.2.1) 0) / 4
+          let v := (yuvs.foldl (fun a t => a + t.2.2) 0) / 4
+          if f.unit = 1 then out := (out.push u).push v
+          else
+            for b in le16 (u * sh) ++ le16 (v * sh) do out := out.push b
+  return out
+
+def showResult (f : Fmt) (img : Img) (intLine : Bool) : String :=
+  if isBi f ∧ (img.w % 2 ≠ 0 ∨ img.h % 2 ≠ 0) then "err size"
+  else
+    let bytes := encodeMasked f img intLine
+    s!"ok {bytes.size} {hexOf (fnv bytes).toNat 16}"
+
+def b2n (b : Bool) : Nat := if b then 1 else 0
+
+def runC12 (line : String) : String :=
+  match toks line with
+  | ["sup", name] =>
+    match formats.find? (·.name = name) with
+    | none => "bad-case"
+    | some f =>
+      let fl := (encoderTable name).foldl (fun a e => a ||| e.flags) 0
+      let d := getDithering fl
+      let (sh, sm) := if isBi f then (0, "2x2") else (1, "1x1")
+      s!"sup dc={b2n d.1} da={b2n d.2} sh={sh} sm={sm} local=0"
+  | ["int", name, bitsS, fam, patS, wS, hS, startS] =>
+    match formats.find? (·.name = name), nat? bitsS, nat? patS, nat? wS, nat? hS, nat? startS with
+    | some f, some bits, some pat, some w, some h, some start =>
+      if (bits ≠ 8 ∧ bits ≠ 16) ∨ pat > 3 ∨ w = 0 ∨ h = 0 ∨ w * h > 2 ^ 20 ∨ ¬ ["g", "a", "rgb", "rgba"].contains fam then "bad-case"
+      else
+        let one := Inp.int (2 ^ bits - 1) bits
+        let zero := Inp.int 0 bits
+        let px := (Array.range (w * h)).map fun i =>
+          let k := pixIndex pat (isBi f) w (i % w) (i / w) start
+          Pix.of (logicalPx fam ((Array.range 4).map fun c => Inp.int (intChan pat bits c k) bits) one zero)
+        showResult f ⟨w, h, px⟩ true
+    | _, _, _, _, _, _ => "bad-case"
+  | [kind, name, fam, wS, hS, vals] =>
+    match formats.find? (·.name = name), nat? wS, nat? hS, (vals.splitOn ",").mapM hex? with
+    | some f, some w, some h, some vs =>
+      if ¬ ["f32", "f32s", "f32x"].contains kind then "bad-case"
+      else if kind ≠ "f32x" ∧ vs.any (· > 0x3F800000) then "bad-case"
+      else if kind = "f32" ∧ vs.any (fun v => v ≠ 0 ∧ v < 0x38800000) then "bad-case"
+      else if vs.isEmpty ∨ w = 0 ∨ h = 0 ∨ w * h > 2 ^ 20 ∨ ¬ ["g", "a", "rgb", "rgba"].contains fam ∨ vs.any (· ≥ 2 ^ 32) then "bad-case"
+      else
+        let va := vs.toArray
+        let nch := match fam with | "g" | "a" => 1 | "rgb" => 3 | _ => 4
+        let one := Inp.f32 0x3F800000
+        let zero := Inp.f32 0
+        let px := (Array.range (w * h)).map fun i =>
+          let x := i % w; let y := i / w
+          let i := match f.cls with
+            | .rgbg | .subYuv _ => y * ((w + 1) / 2) + x / 2
+            | .bi _ => (y / 2) * (w / 2) + x / 2
+            | _ => i
+          let g (j : Nat) := Inp.f32 va[(i * nch + j) % va.size]!
+          let v : Array Inp := match fam with
+            | "g" => #[g 0, zero, zero, one]
+            | "a" => #[zero, zero, zero, g 0]
+            | "rgb" => #[g 0, g 1, g 2, one]
+            | _ => #[g 0, g 1, g 2, g 3]
+          Pix.of (logicalPx fam v one zero)
+        showResult f ⟨w, h, px⟩ false
+    | _, _, _, _ => "bad-case"
+  | _ => "bad-case"
+
+end Dds.Drv.C12
+
 namespace Dds.Drv
-
-def runC12 (_line : String) : String := "not-modelled"
-
+def runC12 : String → String := C12.runC12
 end Dds.Drv
